@@ -992,16 +992,11 @@ impl<'a, 'b> TryInto<AnnotationBuilder<'a>> for AnnotationCsv<'a> {
                 let targetdatasets: SmallVec<[&str; 1]> = self.targetdataset.split(";").collect();
                 let targetannotations: SmallVec<[&str; 1]> =
                     self.targetannotation.split(";").collect();
-                let targetkeys: SmallVec<[&str; 1]> = if let Some(targetkey) = self.targetkey.as_ref() {
-                    targetkey.split(";").collect()
-                } else {
-                    SmallVec::new()
-                };
-                let targetdata: SmallVec<[&str; 1]> = if let Some(targetdata) = self.targetdata.as_ref() {
-                    targetdata.split(";").collect()
-                } else {
-                    SmallVec::new()
-                };
+                //(an absent column is treated like an empty one: split() always yields at least one item)
+                let targetkeys: SmallVec<[&str; 1]> =
+                    self.targetkey.as_deref().unwrap_or("").split(";").collect();
+                let targetdata: SmallVec<[&str; 1]> =
+                    self.targetdata.as_deref().unwrap_or("").split(";").collect();
                 let beginoffsets: SmallVec<[&str; 1]> = self.begin.split(";").collect();
                 let endoffsets: SmallVec<[&str; 1]> = self.end.split(";").collect();
                 let mut maxlen = selectortypes.len();
